@@ -89,10 +89,14 @@ TypeVals(W, x) == LET t == TypeOfPath(W, x) IN
                   IF x \in DOMAIN W.scalars /\ Len(W.scalars[x].enum) > 0
                   THEN {W.scalars[x].enum[i] : i \in 1..Len(W.scalars[x].enum)}     \* an enum field ranges over its enumerators
                   ELSE AllVecs(t.w)
-Candidates(W, S, call, env) ==
-  LET used == UsedRand(W, S, SeqSet(call.roots)) IN
-  {[x \in DOMAIN env |-> IF x \in used THEN f[x] ELSE env[x]] : f \in [used -> UNION {TypeVals(W, x) : x \in used}]}
-\* NB: ill-typed candidates (wrong width) are filtered here
+\* every assignment of the paths X over their own types, the rest of `base` kept: exactly the product of the |TypeVals(x)|
+\* (a function set over the UNION of the value sets would enumerate ill-typed functions too - too many when widths are mixed)
+RECURSIVE Assign(_, _, _)
+Assign(W, X, base) ==
+  IF X = {} THEN {base}
+  ELSE LET x == CHOOSE y \in X : TRUE IN
+       UNION {Assign(W, X \ {x}, [base EXCEPT ![x] = v]) : v \in TypeVals(W, x)}
+Candidates(W, S, call, env) == Assign(W, UsedRand(W, S, SeqSet(call.roots)) \cap DOMAIN env, env)
 WellTyped(W, e) == \A x \in DOMAIN e : Len(e[x]) = TypeOfPath(W, x).w /\ (x \in DOMAIN W.scalars => EnumOK(W, x, e[x]))
 Sol(W, S, call, env) ==
   {e \in Candidates(W, S, call, env) : WellTyped(W, e) /\ HardAll(W, S, call, e, S.sz) = "T"}
@@ -114,8 +118,7 @@ CandSz(W, S, call, env) ==
            dom   == fixed \cup elems
            S2    == [S EXCEPT !.sz = sz2, !.vals = [x \in dom |-> IF x \in DOMAIN env THEN env[x] ELSE Zero(TypeOfPath(W, x).w)]]
            used  == UsedRand(W, S2, roots)
-       IN {<<[x \in dom |-> IF x \in used THEN f[x] ELSE S2.vals[x]], sz2>> :
-              f \in [used -> UNION {TypeVals(W, x) : x \in used}]}
+       IN {<<e, sz2>> : e \in Assign(W, used \cap dom, [x \in dom |-> S2.vals[x]])}
        : szf \in {g \in [usz -> 0..4] : \A l \in usz : g[l] <= MaxSz(W, l)} }
 DefSatSz(W, S, call, env) ==
   \E c \in CandSz(W, S, call, env) :
